@@ -89,11 +89,35 @@ def native_programs():
     return scns
 
 
+def foreign_programs():
+    """the application uses Python values (tuples, named tuples, frozensets, bytes) as constants, has debug
+    logging switched on for the package, and builds everything through the API: facts, a native predicate
+    and the goals; every abandonment point"""
+    X, Y, Z = V(0), V(1), V(2)
+    facts = [C("pos", A("tom"), A("p34")), C("pos", A("jerry"), A("p12")), C("pos", A("spike"), C("at", A("p007"), V(0))), C("pos", V(0), A("nowhere"))]
+    rows = [{"args": [A("tom"), A("cat")], "nv": 0}, {"args": [A("jerry"), C("kind", A("mouse"))], "nv": 0}, {"args": [V(0), A("thing")], "nv": 1}]
+    goals = [(C("pos", X, Y), 2), (C("pos", A("tom"), X), 1), (C("pos", X, A("p12")), 1), (C("kind", X, Y), 2), (C("kind", A("jerry"), C("kind", X)), 1),
+             (C("findall", C("w", X, Y), C("pos", X, Y), Z), 3), (C("once", C("pos", X, Y)), 2), (C("retract", C("pos", X, Y)), 2),
+             (C("call", C("pos", X), Y), 2), (C("=", C("f", X, A("k1")), C("f", A("k2"), Y)), 2), (C("\\=", A("k1"), A("k2")), 0), (C("=", A("k1"), A("k2")), 0)]
+    scns = []
+    for callno, row in [(0, 0), (1, 1), (1, 3), (2, 0)]:
+        for g, qnv in goals:
+            if callno and g["n"] != "kind":
+                continue
+            reg = {"op": "register", "e": 1, "name": "kind", "arity": 2, "style": "explicit", "fid": "kind", "rows": rows,
+                   "raise": {"call": callno, "row": row}, "yields": False}
+            steps = [[{"op": "assert", "e": 1, "term": f, "atEnd": True, "r": 0}] for f in facts] + [[reg]] + abandon_steps(g, qnv, 3)
+            scns.append({"scripts": {}, "steps": steps, "keys": [{"n": "pos", "k": 2}]})
+    return scns
+
+
 def run(tier, seed):
     chk = Check("C03", tier, seed)
     rnd = random.Random(seed)
     chk.machine_family("abandon-fixed", fixed_programs(), features=features)
     chk.machine_family("native-raise-points", native_programs(), features=features)
+    chk.machine_family("python-values-as-constants-under-debug-logging", foreign_programs(), features=features,
+                       opts_list=[{}, {"foreign": True, "log_debug": True, "c15": False}])
     # body trees (cut / ; / -> / \+) with every abandonment point
     res = bodies.enumerate_instances(4 if tier == "quick" else 5, 0, 2)
     chk.add_tlc(res, ["CodegenRefinesControl"])
